@@ -68,7 +68,9 @@ func genEscInput(rc *RC) []byte {
 		n = ch.Range("workload", 0, 64)
 	}
 	var b []byte
-	pieces := []string{"a", "b", "z", "0", "2", "5", "c", "C", "f", " ", "\"", "&", "'", "/", ":", "<", ">", "@", "\\", "\\20", "\\5c", "\\5C", "\\2F", "\\3a", "\\40", "\\4", "\\2", "\\zz", "\\\\", "\\ff", "é", "\xff", "\\2\\20"}
+	pieces := []string{"a", "b", "z", "0", "2", "5", "c", "C", "f", " ", "\"", "&", "'", "/", ":", "<", ">", "@", "\\", "\\20", "\\5c", "\\5C", "\\2F", "\\3a", "\\40", "\\4", "\\2", "\\zz", "\\\\", "\\ff", "é", "\xff", "\\2\\20",
+		// multi-byte characters whose code point, truncated to a byte, is one of the ten characters (U+4E3A -> ':', U+4E26 -> '&', U+0120 -> ' ', U+0127 -> '\'', U+015C -> '\\', U+0240 -> '@', U+012F -> '/')
+		"为", "並", "Ġ", "ħ", "Ŝ", "ɀ", "į", "\u0222", "\u023c", "\u013e"}
 	nearMiss := ch.Chance("workload", 1, 3)
 	for len(b) < n {
 		if nearMiss && ch.Chance("workload", 1, 5) {
